@@ -70,7 +70,7 @@ fn gen_c08(tier: &Tier, rng: &mut Rng, w: usize, nw: usize, out: &mut Vec<Case>)
         }
     }
     // (b) random noise x payload x idle history
-    let n = if tier.thorough { 400_000 } else { 20_000 } / nw;
+    let n = if tier.thorough { 400_000 } else { 60_000 } / nw;
     for _ in 0..n {
         let cap = if rng.chance(1, 2) { None } else { Some(*rng.pick(&[8usize, 12, 16, 32])) };
         let m = rand_payload(rng, cap.unwrap_or(16).min(16));
@@ -136,7 +136,7 @@ fn admissible_cuts(f: &[u8]) -> Vec<usize> {
 }
 
 fn gen_c14(tier: &Tier, rng: &mut Rng, _w: usize, nw: usize, out: &mut Vec<Case>) {
-    let n = if tier.thorough { 600_000 } else { 30_000 } / nw;
+    let n = if tier.thorough { 600_000 } else { 90_000 } / nw;
     for _ in 0..n {
         let cap = if rng.chance(1, 2) { None } else { Some(*rng.pick(&[0usize, 2, 4, 8, 16])) };
         let s1 = adversarial_stream(rng, 8);
@@ -181,7 +181,7 @@ fn gen_c14(tier: &Tier, rng: &mut Rng, _w: usize, nw: usize, out: &mut Vec<Case>
 }
 
 fn gen_c16(tier: &Tier, rng: &mut Rng, w: usize, nw: usize, out: &mut Vec<Case>) {
-    let nrand = if tier.thorough { 100_000 } else { 4_000 };
+    let nrand = if tier.thorough { 100_000 } else { 12_000 };
     let mut fam = payload_family(&Tier { thorough: false }, rng, w, nw, nrand, false);
     if tier.thorough {
         fam.extend(payload_family(tier, rng, w, nw, 0, false).into_iter().filter(|p| p.len() >= 6));
@@ -301,7 +301,7 @@ fn gen_c11(tier: &Tier, rng: &mut Rng, _w: usize, nw: usize, out: &mut Vec<Case>
             }
         }
     }
-    let n = if tier.thorough { 400_000 } else { 20_000 } / nw;
+    let n = if tier.thorough { 400_000 } else { 60_000 } / nw;
     for _ in 0..n {
         let s: Vec<u8> = if rng.chance(1, 2) {
             adversarial_stream(rng, 8)
@@ -455,7 +455,7 @@ fn gen_c03(tier: &Tier, rng: &mut Rng, _w: usize, nw: usize, out: &mut Vec<Case>
             }
         }
     }
-    let n = if tier.thorough { 500_000 } else { 24_000 } / nw;
+    let n = if tier.thorough { 500_000 } else { 72_000 } / nw;
     for i in 0..n {
         let f = if i % 8 == 0 { gfile(rng, 2, 40) } else { gfile(rng, 3, 6) };
         let plain = rng.chance(1, 5);
@@ -541,7 +541,7 @@ fn gen_c04(tier: &Tier, rng: &mut Rng, _w: usize, nw: usize, out: &mut Vec<Case>
         }
     }
     let reals = real_payloads();
-    let n = if tier.thorough { 800_000 } else { 40_000 } / nw;
+    let n = if tier.thorough { 800_000 } else { 120_000 } / nw;
     for _ in 0..n {
         let x = mutant(rng, &reals);
         out.push(Case::new("mutant", vec![format!("parse {}", tok(&x)), format!("stream {} 2", tok(&x))]));
@@ -593,7 +593,7 @@ fn gen_c09(tier: &Tier, rng: &mut Rng, _w: usize, nw: usize, out: &mut Vec<Case>
         }
     }
     let reals = real_payloads();
-    let n = if tier.thorough { 800_000 } else { 40_000 } / nw;
+    let n = if tier.thorough { 800_000 } else { 120_000 } / nw;
     for _ in 0..n {
         let x = mutant(rng, &reals);
         out.push(Case::new("mutant", vec![format!("parse {}", tok(&x)), format!("stream {} 2", tok(&x))]));
@@ -623,7 +623,7 @@ fn gen_c13(tier: &Tier, rng: &mut Rng, _w: usize, nw: usize, out: &mut Vec<Case>
         }
     }
     let reals = real_payloads();
-    let n = if tier.thorough { 800_000 } else { 40_000 } / nw;
+    let n = if tier.thorough { 800_000 } else { 120_000 } / nw;
     for _ in 0..n {
         let x = mutant(rng, &reals);
         out.push(Case::new("mutant", vec![format!("stream {} {}", tok(&x), if rng.chance(1, 16) { 300 } else { 16 })]));
@@ -662,7 +662,7 @@ fn gen_c06(tier: &Tier, rng: &mut Rng, _w: usize, nw: usize, out: &mut Vec<Case>
         }
     }
     let reals = real_payloads();
-    let n = if tier.thorough { 800_000 } else { 40_000 } / nw;
+    let n = if tier.thorough { 800_000 } else { 120_000 } / nw;
     for i in 0..n {
         let x = if i % 4 == 0 {
             // a list TLF declaring an arbitrary length, followed by some entries
@@ -740,7 +740,7 @@ fn gen_c12(tier: &Tier, rng: &mut Rng, w: usize, nw: usize, out: &mut Vec<Case>)
             push_list(vec![rng.byte() | 0x80, rng.byte() | if rng.chance(1, 2) { 0x80 } else { 0 }, rng.byte()], out);
         }
     }
-    let nw_ = if tier.thorough { 400_000 } else { 20_000 } / nw;
+    let nw_ = if tier.thorough { 400_000 } else { 60_000 } / nw;
     for _ in 0..nw_ {
         push_list(wild_tlf(rng), out);
     }
@@ -767,7 +767,7 @@ fn gen_c12(tier: &Tier, rng: &mut Rng, w: usize, nw: usize, out: &mut Vec<Case>)
         }
     }
     // (b) integers of every width with every leading-byte pattern at value / status / scaler positions
-    let ni = if tier.thorough { 300_000 } else { 15_000 } / nw;
+    let ni = if tier.thorough { 300_000 } else { 45_000 } / nw;
     for _ in 0..ni {
         let wdt = rng.range(0, 9);
         let signed = rng.chance(1, 2);
@@ -828,7 +828,7 @@ fn gen_c10(tier: &Tier, rng: &mut Rng, _w: usize, nw: usize, out: &mut Vec<Case>
             );
         }
     }
-    let n = if tier.thorough { 200_000 } else { 8_000 } / nw;
+    let n = if tier.thorough { 200_000 } else { 24_000 } / nw;
     for _ in 0..n {
         let k = rng.range(1, 4);
         let mut events: Vec<String> = Vec::new();
